@@ -27,6 +27,23 @@
 //        - Σ_displaced unserved(old formation) + Σ_displaced unserved(formation - vehicle), all read off the OLD table;
 //        rotation cycles / maintenance violation: the postcondition of update_transitions_and_violation_fast
 //        (transitions_follow: consistent with the new tours, membership, violation sum, other types untouched).
+//   C10 / C09 / C11 CLOSURE (the induction step of "after any sequence of schedule modifications" / "for every reachable
+//        schedule"; tag result_satisfies_the_schedule_invariants_again; lemma_apcl_closed, env/add_path_shim.vs, derives it from
+//        the effect clauses above, collected in `ap_effects`): on Ok the result r satisfies the invariant bundle of the
+//        precondition AGAIN.  Schedule invariants = every conjunct of ap_ok; ap_vehicle_ok(v) is about the argument v and is
+//        re-established for the same v; ap_path_ok / ap_counter_ok / ap_admission_pre are about the arguments (no target).
+//          proved outright: r.network.wf(); sv_ids_ok(r); the non-magnitude clauses of sv_formations_ok(r) (every activity has a
+//            formation, trips' types known, the pair covers any duplicate-free list: ap_formations_exact); ap_unserved_covers(r);
+//            transitions_ok(r) INCLUDING its magnitude len_sum < 2^17 (same vehicles in the cycles of every type);
+//            usage_exact(r); every clause of ap_vehicle_ok(r, v) but A-len (in particular ap_listed for the NEW tour);
+//          proved under a hypothesis on the RESULT (magnitudes the operation does not preserve): the length / u32 sum clauses
+//            of sv_formations_ok(r) under ap_grown_small (= these two clauses for the formations of the path's non-depot nodes,
+//            the only ones that grow; untouched / shrunk formations are proved); costs <= 2^61 under r.costs <= 2^61; A-len
+//            of the new tour under tour_len_ok(new tour);
+//          NOT proved, because NOT INDUCTIVE as written: ap_unserved_room(r) (hypothesis of the bundle clause).  It is a
+//            consequence of "pair == Σ over all service trips" + "total demand fits u32" that speaks about removing ONE vehicle
+//            from the current table; a model of ap_ok that loses it is given at lemma_apcl_closed.  No defect of the code.
+//        can_depot_spawn_vehicle returns a bool: there is no result schedule.
 //
 // ASSUMPTIONS introduced / used by this slice:
 //   A-display NEW (env/add_path_shim.vs): `{}` of a Path has no precondition (the repository's impl prints the nodes and
@@ -81,8 +98,11 @@
 //     the u32 magnitudes of the `as VehicleCount` casts in the admission check.
 //
 // NOT covered:
-//   * on Err nothing is claimed about the message; that the result satisfies ap_ok again (invariant preservation)
-//     beyond what the postconditions state; that the callers establish the preconditions;
+//   * on Err nothing is claimed about the message; that the callers establish the preconditions;
+//   * of the closure (see C10 / C09 / C11 CLOSURE above): ap_unserved_room of the result (not inductive as written) and the
+//     magnitudes the operation does not preserve (grown formations, costs, A-len of the new tour) are hypotheses on the result;
+//     invariants that are not in the bundle (e.g. the converse of ap_listed: a formation lists ONLY vehicles whose tour holds
+//     the node; listings match the vehicles) are not claimed for the result either;
 //   * FINDING (candidate defect, low severity; both effects confirmed with unit tests on solution::test_utilities, the
 //     refusal with vehicleTypes[0].maximalFormationCount = 2): a path that
 //     contains an activity the vehicle ALREADY serves (ap_path_fresh violated; e.g. default_schedule,
@@ -438,6 +458,31 @@ impl Clone for TransitionCycle {
         r is Ok ==> self.ap_unserved_after(vehicle_idx, path.node_sequence@, r->Ok_0.0.unserved_passengers), // @obl C09.add_path.unserved_passengers_delta_exact
         // C15 / C10 / C09: rotation cycles and maintenance violation
         r is Ok ==> self.transitions_follow(self.type_of(vehicle_idx), &r->Ok_0.0), // @obl C10.add_path.transitions_follow
+        // ---- CLOSURE (induction step of C10 / C09 / C11): the result satisfies the schedule invariants `ap_ok` again, and
+        // `ap_vehicle_ok` for the same vehicle; conjunct by conjunct, derived (lemma_apcl_closed, env/add_path_shim.vs) from
+        // the effect clauses above, which `ap_effects` collects (nothing new is claimed by this line)
+        r is Ok ==> self.ap_effects(vehicle_idx, path.node_sequence@, &r->Ok_0.0), // @obl C10.add_path.result_satisfies_the_schedule_invariants_again
+        // ids / listings: instance validity, vehicles under their own ids with a tour, dummy tours under Dummy ids, sorted listings
+        r is Ok ==> r->Ok_0.0.network.wf() && r->Ok_0.0.sv_ids_ok(), // @obl C10.add_path.result_satisfies_the_schedule_invariants_again
+        // formations: every activity has a formation, trips' types are types of the network, the cached pair covers any list
+        // without a repeated activity (C09) -- the non-magnitude clauses of sv_formations_ok and ap_unserved_covers
+        r is Ok ==> r->Ok_0.0.ap_formations_exact() && r->Ok_0.0.ap_unserved_covers(), // @obl C10.add_path.result_satisfies_the_schedule_invariants_again
+        // formations, MAGNITUDES (formation length <= 2^17, u32 capacity / seat sums with one more vehicle): not preserved by a
+        // formation that grows; hold again if they hold for the formations of the path's non-depot nodes in the RESULT
+        r is Ok && self.ap_grown_small(path.node_sequence@, &r->Ok_0.0) ==> r->Ok_0.0.sv_formations_ok(), // @obl C10.add_path.result_satisfies_the_schedule_invariants_again
+        // usage
+        r is Ok ==> usage_exact(r->Ok_0.0.depot_usage@, &r->Ok_0.0.network, r->Ok_0.0.vehicles@, r->Ok_0.0.tours@), // @obl C10.add_path.result_satisfies_the_schedule_invariants_again
+        // transitions: one transition per listed type, consistent with the new tours, holding exactly the type's vehicles, the
+        // violation is their sum, fewer than 2^17 vehicles (the magnitude is preserved: same vehicles in the cycles)
+        r is Ok ==> r->Ok_0.0.transitions_ok(), // @obl C10.add_path.result_satisfies_the_schedule_invariants_again
+        // the bundle.  Hypotheses on the RESULT: the magnitudes that the operation does not preserve (grown formations, costs
+        // <= 2^61) and ap_unserved_room, which is not inductive as written (see lemma_apcl_closed)
+        r is Ok && self.ap_grown_small(path.node_sequence@, &r->Ok_0.0) && r->Ok_0.0.ap_unserved_room() && r->Ok_0.0.costs <= sched_cost_bound()
+            ==> r->Ok_0.0.ap_ok(), // @obl C10.add_path.result_satisfies_the_schedule_invariants_again
+        // the receiving vehicle: real, type known, the network's record of its type, its new tour is a tour of the network with
+        // exact caches whose costs are part of the schedule's costs, it is listed in the formation of every activity of the
+        // new tour.  Hypothesis on the RESULT: A-len for the new tour (magnitude)
+        r is Ok && tour_len_ok(r->Ok_0.0.tours@[vehicle_idx].nodes@) ==> r->Ok_0.0.ap_vehicle_ok(vehicle_idx), // @obl C10.add_path.result_satisfies_the_schedule_invariants_again
 //@closure? any#0
     -> (b: bool) requires self.network.has(n) ensures b == !self.network.sp_compatible(n, vehicle_type_id) /* @obl C01.add_path.only_compatible_nodes */
 //@first
@@ -486,6 +531,8 @@ impl Clone for TransitionCycle {
             }
             // C09: the usage table was brought up to date for the vehicle and left alone for everybody else
             lemma_usage_exact_step(self.depot_usage@, depot_usage@, &self.network, self.vehicles@, self.tours@, self.vehicles@, tours@, v); // @obl C09.add_path.depot_usage_exact
+            // CLOSURE: whatever schedule has the effects above satisfies the invariants again
+            lemma_apcl_closed_all(self, v, p); // @obl C10.add_path.result_satisfies_the_schedule_invariants_again
         }
 //@end
 
